@@ -1,6 +1,185 @@
-(* C10 - stub while the correspondence is being built *)
-From Coq Require Import List Bool.
-Require Import FV.Gen.C10 FV.C10.Model.
-Theorem C10_source_facts : exit_on_errors = true.
-Proof. reflexivity. Qed.
+(* C10 - property theorems only; each is closed by a lemma of Lemmas.v / Refuted.v.
+   C ranges over every class descriptor, c over every module configuration (cfg dict), fs over every list of config
+   files.  mod_init is the model of Module.__init__, node_run of load_config + create_modules, startup of the part of the
+   poll thread before the start callback. *)
+From Coq Require Import String.
+From Coq Require Import ZArith NArith Bool List.
+Import ListNotations.
+Local Open Scope list_scope.
+Require Import FV.Base.Util FV.Base.F64 FV.Base.PyVal FV.C01.Model FV.C01.Lemmas FV.Gen.C10 FV.C10.Model FV.C10.Lemmas
+  FV.C10.Refuted.
+
+(* obligations on the facts regenerated from /repo (Gen/C10.v) *)
+Theorem C10_source_facts :
+  add_accessible_catches_exactly_key_and_badvalue = true /\ param_setproperty_wraps_badvalue = true /\
+  checks_only_without_errors_and_raise = true /\ unknown_names_reported = true /\
+  module_props_popped_and_badvalue_collected = true /\ writedict_only_with_write_method = true /\
+  needscfg_and_uninit_marker = true /\ writes_before_first_polls = true /\ write_init_pops_each_entry_once = true /\
+  minmax_check_present = true /\ mandatory_check_present = true /\ numeric_datatypes_check_properties = true /\
+  array_check_ignores_members = true /\ name_map_filled_before_cfg = true /\ registers_only_created = true /\
+  exit_on_errors = true /\ merge_first_wins_and_tags = true /\ mod_wraps_bare_values = true /\
+  checked_value_props = [k_constant; k_default; k_value] /\
+  map mp_name base_mprops = map s_ ["export"; "group"; "description"; "meaning"; "visibility"; "implementation";
+    "interface_classes"; "features"; "pollinterval"; "slowinterval"; "omit_unchanged_within"; "original_id"]%string /\
+  map (pprop_type module_props) [k_export; k_group; k_description; k_visibility; k_original_id] =
+    [Some MBool; Some MString; Some MText; Some MVis; Some MNoneOrString] /\
+  map (pprop_type param_props) [k_readonly; k_group; k_description; k_visibility; k_export; k_needscfg] =
+    [Some MBool; Some MString; Some MText; Some MVis; Some MBoolOrString; Some MNoneOrBool] /\
+  map (pprop_type param_props) [k_min; k_max; k_unit] = [None; None; None] /\
+  filter mp_mandatory base_mprops = filter (fun sp => mem_str (mp_name sp) [k_description; k_implementation;
+    k_interface_classes; k_features]) base_mprops /\
+  unlimited = (2 ^ 64)%Z /\ modname_regex = 62.
+Proof. repeat split; vm_compute; reflexivity. Qed.
+
+(* ---- applied faithfully *)
+
+(* a configured value of a parameter of a created module: the start value in the cache is the configured value converted
+   to the parameter's datatype (the code converts twice: announceUpdate and Parameter.finish); the datatype of the instance
+   converts like the class datatype (only limits/unit may differ); with a write wrapper the raw value is in writeDict *)
+Theorem C10_value_applied : forall C c i p d en v,
+  mod_init C c = Created i -> In p (c_params C) -> p_optional p = false -> p_iscmd p = false -> p_dt p = Some d ->
+  assoc_str (p_name p) c = Some (CDict en) -> NoDup (map fst en) -> In (k_value, v) en ->
+  exists p' d' c1, In p' (i_params i) /\ p_name p' = p_name p /\ p_dt p' = Some d' /\ (forall x, conv d x = conv d' x) /\
+    conv d v = Ok c1 /\ p_value p' = match conv d c1 with Ok c2 => Some c2 | Err _ => None end /\
+    (p_has_write p = true -> In (p_name p, v) (i_write i)).
+Proof. intros; eapply value_applied; eassumption. Qed.
+
+(* ... which is the converted value itself whenever converting a converted value changes nothing *)
+Corollary C10_value_applied_idempotent : forall C c i p d en v,
+  (forall x y, conv d x = Ok y -> conv d y = Ok y) ->
+  mod_init C c = Created i -> In p (c_params C) -> p_optional p = false -> p_iscmd p = false -> p_dt p = Some d ->
+  assoc_str (p_name p) c = Some (CDict en) -> NoDup (map fst en) -> In (k_value, v) en ->
+  exists p' c1, In p' (i_params i) /\ p_name p' = p_name p /\ conv d v = Ok c1 /\ p_value p' = Some c1.
+Proof.
+  intros C c i p d en v Hid H Hin Ho Hc Hd Hcfg ND Hv.
+  destruct (value_applied _ _ _ _ _ _ _ H Hin Ho Hc Hd Hcfg ND Hv) as [p' [d' [c1 [A [B [_ [_ [E [F _]]]]]]]]].
+  exists p', c1. rewrite (Hid _ _ E) in F. auto.
+Qed.
+
+(* later range checks use the datatype of the instance, which carries the configured limits: whatever it accepts lies in
+   its value set (C01 validate_sound) *)
+Theorem C10_later_range_checks_use_instance_limits : forall C c i p d x y,
+  mod_init C c = Created i -> In p (i_params i) -> p_dt p = Some d -> wf d -> valid d x = Ok y -> in_setb d y = true.
+Proof. intros C c i p d x y _ _ _ Hwf Hv. eapply validate_sound; [exact Hwf|left; reflexivity|exact Hv]. Qed.
+
+(* start-up: the poll thread first hands writeDict to the write methods, then initialReads, then the first polls; every
+   write method receives its configured (validated) value exactly once - or, when the value does not validate, the module
+   is not exported or there is no driver method, never (see the refuted statements below) *)
+Theorem C10_written_once_before_poll : forall C c i n,
+  mod_init C c = Created i -> NoDup (map p_name (active (c_params C))) ->
+  (mexport (i_mvals i) && has_thread i = true ->
+   exists ws rs, startup i = ws ++ EvInit :: rs /\ forallb is_write ws = true /\ forallb is_read rs = true) /\
+  writes_for n (startup i) =
+    (if mexport (i_mvals i) && has_thread i
+     then match assoc_str n (i_write i) with Some v => handed (i_params i) n v | None => [] end
+     else []) /\
+  (List.length (writes_for n (startup i)) <= 1)%nat.
+Proof.
+  intros C c i n H ND. pose proof (created_write_nodup _ _ _ H ND) as NW. split; [|split].
+  - intros Ht. destruct (startup_shape i Ht) as [ws [rs [A [B [D _]]]]]. exists ws, rs. auto.
+  - apply startup_writes. exact NW.
+  - rewrite (startup_writes i n NW). destruct (mexport (i_mvals i) && has_thread i); [|simpl; auto].
+    destruct (assoc_str n (i_write i)); [|simpl; auto]. unfold handed.
+    destruct (find_param n (i_params i)); [|simpl; auto]. destruct (p_dt p0); [|simpl; auto].
+    destruct (valid d p); [|simpl; auto]. destruct (p_wfunc p0); simpl; auto.
+Qed.
+
+(* ---- erroneous configuration is rejected whole: no instance *)
+Theorem C10_unknown_name_rejected : forall C c k i,
+  In k (map fst c) -> mem_str k (known_names C) = false -> mod_init C c <> Created i.
+Proof. intros; eapply unknown_name_rejected; eassumption. Qed.
+
+Theorem C10_wrong_type_value_rejected : forall C c i p d en k v e,
+  In p (c_params C) -> p_optional p = false -> p_iscmd p = false -> p_dt p = Some d ->
+  assoc_str (p_name p) c = Some (CDict en) -> In (k, v) en -> mem_str k checked_value_props = true ->
+  conv d v = Err e -> mod_init C c <> Created i.
+Proof. intros; eapply wrong_type_rejected; eassumption. Qed.
+
+Theorem C10_missing_required_value_rejected : forall C c i p,
+  In p (c_params C) -> p_optional p = false -> p_iscmd p = false -> p_needscfg p = true -> p_value p = None ->
+  assoc_str (p_name p) c = None -> mod_init C c <> Created i.
+Proof. intros; eapply missing_value_rejected; eassumption. Qed.
+
+Theorem C10_missing_mandatory_description_rejected : forall C c i p,
+  In p (c_params C) -> p_optional p = false -> p_iscmd p = false -> p_descr p = None ->
+  assoc_str (p_name p) c = None -> mod_init C c <> Created i.
+Proof. intros; eapply missing_description_rejected; eassumption. Qed.
+
+(* full statement: no parameter of a created module has min > max anywhere in its datatype.  It fails for the element type
+   of an array (refuted below); proved for a numeric datatype used directly: *)
+Theorem C10_inverted_limits_rejected_except_array_member : forall C c i p d,
+  mod_init C c = Created i -> In p (i_params i) -> p_iscmd p = false -> p_dt p = Some d -> leaf_inverted d = false.
+Proof. intros; eapply no_inverted_leaf; eassumption. Qed.
+
+(* ---- node level: only created modules are registered, one failing module makes the node refuse to start, every failing
+   module is named in the errors *)
+Theorem C10_node_rejects_whole : forall classes secs,
+  let rs := create_all classes secs in
+  (forall n, In n (registered rs) <->
+             exists s i, In (n, s) secs /\ mod_init (nth (fst s) classes dummy_cls) (snd s) = Created i) /\
+  (node_starts rs = true <-> forall r, In r rs -> is_created (snd r) = true) /\
+  (forall n, (exists e, In e (node_errors rs) /\ nerr_name e = n) <-> exists o, In (n, o) rs /\ is_created o = false).
+Proof.
+  intros classes secs rs. split; [|split].
+  - intros n. rewrite registered_iff. split.
+    + intros [o [Hin Hc]]. destruct (create_all_in _ _ _ _ Hin) as [s [Hs Ho]]. destruct o; try discriminate.
+      exists s, i. split; [exact Hs|symmetry; exact Ho].
+    + intros [s [i [Hin Hm]]]. exists (Created i). split; [|reflexivity]. unfold rs, create_all.
+      apply in_map_iff. exists (n, s). simpl. rewrite Hm. split; [reflexivity|exact Hin].
+  - apply node_starts_iff.
+  - intros n. apply node_errors_iff.
+Qed.
+
+(* ---- merging of several files: the sections of the first file are kept unchanged and in place; later files only add
+   sections with new names, tagged with the equipment id of their file *)
+Theorem C10_merge_first_file_wins : forall fs acc res,
+  load_rest acc fs = Some res ->
+  exists extra, res = acc ++ extra /\
+    Forall (fun e => mem_str (fst e) (map fst acc) = false /\
+                     exists f s, In f fs /\ snd e = tag_origin (f_eid f) s) extra.
+Proof. intros; eapply load_rest_prefix; eassumption. Qed.
+
+(* ---- where the pinned code violates the property *)
+Theorem C10_refuted_out_of_range_value_not_written : exists C c i, mod_init C c = Created i /\ never_handed i = true.
+Proof. exact refuted_out_of_range_value_not_written. Qed.
+Theorem C10_refuted_unexported_module_values_not_written :
+  exists C c i, mod_init C c = Created i /\ unexported_not_started i = true.
+Proof. exact refuted_unexported_module_values_not_written. Qed.
+Theorem C10_refuted_inverted_limits_array_member : exists C c i, mod_init C c = Created i /\ has_inverted_array i = true.
+Proof. exact refuted_inverted_limits_array_member. Qed.
+Theorem C10_refuted_export_override_name_map_stale : exists C c i, mod_init C c = Created i /\ name_map_stale i = true.
+Proof. exact refuted_export_override_name_map_stale. Qed.
+
+(* non-vacuity: a configuration that is applied (value converted, limits and unit overridden, write registered and handed
+   over before the first poll) *)
+Definition demo_cfg : cfg :=
+  [descr; (s_ "p1", CDict [(k_min, PInt 1); (k_unit, PStr (s_ "mK")); (k_value, PInt 5)])].
+Example C10_demo :
+  match mod_init C1 demo_cfg with
+  | Created i =>
+      match find_param (s_ "p1") (i_params i) with
+      | Some p => pv_same (match p_value p with Some v => v | None => PNone end) (PFloat (of_Z 5))
+                  && str_eqb (p_unit p) (s_ "mK")
+                  && match p_dt p with Some (TFloat mn _ _ _) => fsame mn (of_Z 1) | _ => false end
+      | None => false end
+      && match startup i with [EvWrite _ v; EvInit] => pv_same v (PFloat (of_Z 5)) | _ => false end
+  | _ => false
+  end = true.
+Proof. vm_compute. reflexivity. Qed.
+
 Print Assumptions C10_source_facts.
+Print Assumptions C10_value_applied.
+Print Assumptions C10_value_applied_idempotent.
+Print Assumptions C10_later_range_checks_use_instance_limits.
+Print Assumptions C10_written_once_before_poll.
+Print Assumptions C10_unknown_name_rejected.
+Print Assumptions C10_wrong_type_value_rejected.
+Print Assumptions C10_missing_required_value_rejected.
+Print Assumptions C10_missing_mandatory_description_rejected.
+Print Assumptions C10_inverted_limits_rejected_except_array_member.
+Print Assumptions C10_node_rejects_whole.
+Print Assumptions C10_merge_first_file_wins.
+Print Assumptions C10_refuted_out_of_range_value_not_written.
+Print Assumptions C10_refuted_unexported_module_values_not_written.
+Print Assumptions C10_refuted_inverted_limits_array_member.
+Print Assumptions C10_refuted_export_override_name_map_stale.
